@@ -18,6 +18,7 @@ pub mod c08_inline;
 pub mod c08_scalar;
 pub mod c08_steps;
 pub mod c_scalar;
+pub mod c17_args;
 pub mod c17_matchers;
 pub mod c18_location;
 pub mod c19_config;
